@@ -379,7 +379,24 @@ func c07Strata() []*gast.Grammar {
 		// right recursion through one terminal: fine as long as the terminal cannot match without consuming
 		return mk(r("S", gast.C(gast.S(t, gast.Ref("S")), gast.L(""))))
 	}
+	// nullable only through a long chain of rule references (120 rules), written top-down and bottom-up
+	chain := func(up bool) *gast.Grammar {
+		name := func(i int) string { return fmt.Sprintf("R%03d", i) }
+		rules := []*gast.Rule{r("A", gast.C(gast.S(gast.Ref(name(1)), gast.Ref("A"), gast.L("a")), gast.L("b")))}
+		var rest []*gast.Rule
+		for i := 1; i < 120; i++ {
+			rest = append(rest, r(name(i), gast.Ref(name(i+1))))
+		}
+		rest = append(rest, r(name(120), gast.Opt(gast.L("x"))))
+		if up {
+			for a, b := 0, len(rest)-1; a < b; a, b = a+1, b-1 {
+				rest[a], rest[b] = rest[b], rest[a]
+			}
+		}
+		return mk(append(rules, rest...)...)
+	}
 	return []*gast.Grammar{
+		chain(false), chain(true),
 		rr(gast.Cl(gast.Chars("\ufffd"))), rr(gast.Cl(&gast.ClassSpec{Ranges: [][2]rune{{0x80, 0xffff}}})), rr(gast.Cl(&gast.ClassSpec{UClasses: []string{"So"}})), rr(gast.Cl(&gast.ClassSpec{UClasses: []string{"S"}, Chars: []rune("a")})),
 		rr(gast.Cl(&gast.ClassSpec{Chars: []rune("\ufffdé"), IgnoreCase: true})), rr(gast.Cl(&gast.ClassSpec{Chars: []rune("a"), Inverted: true})), rr(gast.L("\ufffd")), rr(gast.Dot()),
 		rr(gast.Cl(&gast.ClassSpec{Chars: []rune("+=\ufffd")})),
